@@ -153,10 +153,14 @@ def finish(prop, tier, seed, contracts, results, extra, t0, write_baseline=False
         if still:
             kf_lines.append(f"KNOWN-FINDING: property={prop} {k['what']}")
 
-    n = len(obligations)
-    discharged = sum(1 for o in obligations if o["status"] in ("unsat", "ok"))
+    # bounded stand-ins are reported on their own and never counted as proved obligations
+    proved_kind = [o for o in obligations if not o.get("bounded")]
+    standins = [o for o in obligations if o.get("bounded")]
+    n = len(proved_kind)
+    discharged = sum(1 for o in proved_kind if o["status"] in ("unsat", "ok"))
+    standins_held = sum(1 for o in standins if o["status"] in ("unsat", "ok"))
     by_backend = {}
-    for o in obligations:
+    for o in proved_kind:
         if o["status"] in ("unsat", "ok"):
             by_backend[o.get("backend", "?")] = by_backend.get(o.get("backend", "?"), 0) + 1
     samples = []
@@ -170,7 +174,9 @@ def finish(prop, tier, seed, contracts, results, extra, t0, write_baseline=False
                         "where": o.get("where"), "result": o["status"], "backend": o.get("backend"),
                         "solver_time_s": o.get("time_s"), "size": o.get("ground")})
     enum = [o for o in extra if o.get("backend") == "enumeration"]
-    level = "exploration" if enum else "proof"
+    # a property whose top-level statement is decided only by a bounded stand-in reports at the
+    # exploration level; stand-ins that merely accompany proved contracts are listed, not counted
+    level = "exploration" if any(o.get("primary_for") == prop for o in enum) else "proof"
     evidence = {
         "property_id": prop, "tier": tier, "seed": seed, "level": level,
         "coverage": {
@@ -186,6 +192,7 @@ def finish(prop, tier, seed, contracts, results, extra, t0, write_baseline=False
             "solver_time_s": round(solver_time, 2),
             "samples": samples,
             "bounded_standins": [o for o in extra if o.get("bounded")],
+            "bounded_standins_held": standins_held,
             "unsupported": unsupported,
             "undecided": [o["name"] for o in undecided][:50],
             "known_findings": [k["what"] for k in my_findings],
@@ -197,7 +204,7 @@ def finish(prop, tier, seed, contracts, results, extra, t0, write_baseline=False
         "wall_s": round(time.time() - t0, 2),
         "violations": len(violations),
     }
-    if enum:
+    if level == "exploration":
         cov = evidence["coverage"]
         cov["evaluations"] = sum(o.get("evaluations", 0) for o in enum)
         cov["distinct_nontrivial"] = sum(o.get("distinct_nontrivial", 0) for o in enum)
@@ -217,6 +224,7 @@ def finish(prop, tier, seed, contracts, results, extra, t0, write_baseline=False
         print(line)
     print(f"{prop}: {discharged}/{n} obligations discharged over {len(functions)} functions "
           f"({', '.join(f'{k}:{v}' for k, v in sorted(by_backend.items()))}); "
+          f"{standins_held}/{len(standins)} bounded stand-ins held; "
           f"{len(violations)} refuted, {len(undecided)} undecided, {len(unsupported)} unsupported; "
           f"{evidence['wall_s']}s")
     if errors:
@@ -228,7 +236,7 @@ def finish(prop, tier, seed, contracts, results, extra, t0, write_baseline=False
             tail = "" if has_input else " no-failing-input-found"
             print(f"VIOLATION property={prop} replay={path}{tail}")
         return 1
-    if n == 0:
+    if n + len(standins) == 0:
         print(f"CHECKER-ERROR property={prop}: zero obligations generated")
         return 3
     if undecided or unsupported:
